@@ -95,3 +95,24 @@ Theorem C15_source_finish : forall minlen g cz ctype,
   map fst (skipn (List.length (events st') - 3) (events st')) = ["w.Close"; "bpool.Put"; "pool.Put"]%string.
 Proof. exact src_gzip_finish_refines. Qed.
 Print Assumptions C15_source_finish.
+
+(* ---- the Decompress request handler, from its statement-level translation (Gen/Src_decompress.v, re-translated from
+   middleware/decompress.go on every run): only Content-Encoding EXACTLY gzip gets another body; the body is replaced by the
+   pooled reader only after Reset accepted the original; an empty body (io.EOF) is handed on untouched, any other Reset error is
+   returned without running next; the reader returns to the pool whenever it was taken, is closed only after a successful Reset,
+   and nothing else is called on it *)
+From Coq Require Import ZArith String.
+From Echo Require Import Base.GoLite Gen.Src_decompress Mw.DecompressSrc.
+Theorem C15_source_decompress_handler : forall sym, sym "nil"%string = 0%Z -> sym "io.EOF"%string <> 0%Z -> forall skip ce pooled gr ok err,
+  let '(st', ret) := GoLite.run sym src_decompress_handler_results src_decompress_handler (DecompressSrc.start skip ce pooled gr ok err) in
+  if (negb (skip =? 0) || negb (ce =? sym "GZIPEncoding"%string))%Z
+  then DecompressSrc.names st' = ["config.Skipper"; "next"]%string /\ body_of st' = 0%Z /\ ret = [sym "result of next"%string]
+  else if ((ok =? 0) || (gr =? 0))%Z
+  then DecompressSrc.names st' = taken /\ body_of st' = 0%Z /\ ret = [sym "echo.NewHTTPError(http.StatusInternalServerError,i.(error).Error())"%string]
+  else if (err =? 0)%Z
+  then DecompressSrc.names st' = (prepared ++ ["defer gr.Close()"; "next"]%string)%list /\ body_of st' = gr /\ ret = [sym "result of next"%string]
+  else if (err =? sym "io.EOF"%string)%Z
+  then DecompressSrc.names st' = (prepared ++ ["next"%string])%list /\ body_of st' = 0%Z /\ ret = [sym "result of next"%string]
+  else DecompressSrc.names st' = prepared /\ body_of st' = 0%Z /\ ret = [err].
+Proof. exact DecompressSrc.C15_source_decompress_handler. Qed.
+Print Assumptions C15_source_decompress_handler.
